@@ -57,6 +57,7 @@ func main() {
 	write("Glue.lean", genGlue())
 	write("ConfigLocks.lean", genConfigLocks())
 	write("FmtCmd.lean", genFmtCmd())
+	write("HeredocEnd.lean", genHeredocEnd())
 	write("Resume.lean", genResume())
 	write("ChangeConfig.lean", genChangeConfig())
 	write("LoadEndpoint.lean", genLoadEndpoint())
@@ -71,6 +72,7 @@ func main() {
 	write("UsagePoolClients.lean", genUsagePoolClients())
 	write("RequestPaths.lean", genRequestPaths())
 	write("StdAppsOrder.lean", genStdAppsOrder())
+	write("Enforcement.lean", genEnforcement())
 
 	// typed scan, cached by content hash of the scanned sources
 	h := hashTree(repo)
@@ -514,6 +516,7 @@ func genEncode() string {
 	sb.WriteString("def encodeEncoderLifecycleInit : List String := " + leanStrList(lifecycle(findFunc(ef, "responseWriter", "init"))) + "\n\n")
 	sb.WriteString("/-- encode.go `responseWriter.Close`: the same for `Close` -/\n")
 	sb.WriteString("def encodeEncoderLifecycleClose : List String := " + leanStrList(lifecycle(findFunc(ef, "responseWriter", "Close"))) + "\n\n")
+	sb.WriteString(genEncodeWriterFacts(ef))
 	_, cf := parseFile("modules/caddyhttp/encode/caddyfile.go")
 	var defaults []string
 	if fd := findFunc(cf, "Encode", "UnmarshalCaddyfile"); fd != nil {
@@ -533,6 +536,124 @@ func genEncode() string {
 	sb.WriteString("/-- encode/caddyfile.go `UnmarshalCaddyfile`: the formats used when the directive names none -/\n")
 	sb.WriteString("def encodeCaddyfileDefaultFormats : List String := " + leanStrList(defaults) + "\n")
 	sb.WriteString(footer)
+	return sb.String()
+}
+
+// genEncodeWriterFacts (C15): where the per-request state of encode's responseWriter comes from.
+//   - the field names of `type responseWriter struct` (an embedded field by its type name)
+//   - every place in encode.go where a responseWriter value comes into being: `var x responseWriter`
+//     (zero value), a composite literal (with the keys it sets), `new(responseWriter)`, or a type
+//     assertion of a CALL result to *responseWriter (a value taken out of a pool / cache)
+//   - the fields initResponseWriter assigns, in source order
+// A response writer that is not a fresh zero value per request (a sync.Pool of writers, a cached one)
+// changes the origins list and breaks `response_writer_fresh_matches_source`.
+func genEncodeWriterFacts(ef *ast.File) string {
+	var sb strings.Builder
+	var fields, origins, assigns []string
+	isRW := func(e ast.Expr) bool {
+		if st, ok := e.(*ast.StarExpr); ok {
+			e = st.X
+		}
+		id, ok := e.(*ast.Ident)
+		return ok && id.Name == "responseWriter"
+	}
+	if ef != nil {
+		for _, d := range ef.Decls {
+			switch d := d.(type) {
+			case *ast.GenDecl:
+				for _, sp := range d.Specs {
+					ts, ok := sp.(*ast.TypeSpec)
+					if !ok || ts.Name.Name != "responseWriter" {
+						continue
+					}
+					if st, ok := ts.Type.(*ast.StructType); ok {
+						for _, f := range st.Fields.List {
+							if len(f.Names) == 0 {
+								t := exprText(f.Type)
+								if i := strings.LastIndex(t, "."); i >= 0 {
+									t = t[i+1:]
+								}
+								fields = append(fields, strings.TrimPrefix(t, "*"))
+							}
+							for _, n := range f.Names {
+								fields = append(fields, n.Name)
+							}
+						}
+					}
+				}
+				// a package-level variable of the type would be shared state as well
+				for _, sp := range d.Specs {
+					if vs, ok := sp.(*ast.ValueSpec); ok && vs.Type != nil && isRW(vs.Type) {
+						origins = append(origins, "package level: var")
+					}
+				}
+			case *ast.FuncDecl:
+				fn := d.Name.Name
+				ast.Inspect(d, func(n ast.Node) bool {
+					switch n := n.(type) {
+					case *ast.DeclStmt:
+						if gd, ok := n.Decl.(*ast.GenDecl); ok {
+							for _, sp := range gd.Specs {
+								if vs, ok := sp.(*ast.ValueSpec); ok && vs.Type != nil && isRW(vs.Type) {
+									kind := "var"
+									if _, ptr := vs.Type.(*ast.StarExpr); ptr {
+										kind = "var pointer"
+									}
+									if len(vs.Values) > 0 {
+										kind += " = " + exprText(vs.Values[0])
+									}
+									origins = append(origins, fn+": "+kind)
+								}
+							}
+						}
+					case *ast.CompositeLit:
+						if n.Type != nil && isRW(n.Type) {
+							var keys []string
+							for _, el := range n.Elts {
+								if kv, ok := el.(*ast.KeyValueExpr); ok {
+									keys = append(keys, exprText(kv.Key))
+								}
+							}
+							origins = append(origins, fn+": literal{"+strings.Join(keys, ",")+"}")
+						}
+					case *ast.CallExpr:
+						if id, ok := n.Fun.(*ast.Ident); ok && id.Name == "new" && len(n.Args) == 1 && isRW(n.Args[0]) {
+							origins = append(origins, fn+": new")
+						}
+					case *ast.TypeAssertExpr:
+						if n.Type != nil && isRW(n.Type) {
+							if _, call := n.X.(*ast.CallExpr); call {
+								origins = append(origins, fn+": from call "+exprText(n.X))
+							}
+						}
+					}
+					return true
+				})
+				if fn == "initResponseWriter" {
+					seen := map[string]bool{}
+					ast.Inspect(d, func(n ast.Node) bool {
+						as, ok := n.(*ast.AssignStmt)
+						if !ok {
+							return true
+						}
+						for _, l := range as.Lhs {
+							if sel, ok := l.(*ast.SelectorExpr); ok && exprText(sel.X) == "rw" && !seen[sel.Sel.Name] {
+								seen[sel.Sel.Name] = true
+								assigns = append(assigns, sel.Sel.Name)
+							}
+						}
+						return true
+					})
+				}
+			}
+		}
+	}
+	sb.WriteString("/-- encode.go `type responseWriter struct`: field names in source order (embedded field by type name) -/\n")
+	sb.WriteString("def encodeResponseWriterFields : List String := " + leanStrList(fields) + "\n\n")
+	sb.WriteString("/-- encode.go: every place a `responseWriter` value comes into being (`var` = zero value, literal, `new`, or taken from a call such as a pool's `Get`) -/\n")
+	sb.WriteString("def encodeResponseWriterOrigins : List String := " + leanStrList(origins) + "\n\n")
+	sb.WriteString("/-- encode.go `initResponseWriter`: the fields of `rw` it assigns, in source order -/\n")
+	sb.WriteString("def encodeInitResponseWriterAssigns : List String := " + leanStrList(assigns) + "\n\n")
 	return sb.String()
 }
 
@@ -2504,53 +2625,8 @@ func genGlue() string {
 	// C18: automatic HTTPS phase 1 looks at the host matchers (it expands their patterns to learn the names)
 	// but must not store into them — the matcher expands its patterns again for every request
 	{
-		var stores []string
-		_, f := parseFile("modules/caddyhttp/autohttps.go")
-		if f != nil {
-			var rootIdent func(e ast.Expr) string
-			rootIdent = func(e ast.Expr) string {
-				switch t := e.(type) {
-				case *ast.Ident:
-					return t.Name
-				case *ast.ParenExpr:
-					return rootIdent(t.X)
-				case *ast.StarExpr:
-					return rootIdent(t.X)
-				case *ast.IndexExpr:
-					return rootIdent(t.X)
-				case *ast.SliceExpr:
-					return rootIdent(t.X)
-				case *ast.SelectorExpr:
-					return rootIdent(t.X)
-				}
-				return ""
-			}
-			for _, d := range f.Decls {
-				fd, ok := d.(*ast.FuncDecl)
-				if !ok || fd.Body == nil || fd.Name.Name != "automaticHTTPSPhase1" {
-					continue
-				}
-				ast.Inspect(fd.Body, func(x ast.Node) bool {
-					switch st := x.(type) {
-					case *ast.AssignStmt:
-						if st.Tok == token.DEFINE {
-							return true
-						}
-						for _, l := range st.Lhs {
-							if rootIdent(l) == "hm" {
-								stores = append(stores, exprText(l))
-							}
-						}
-					case *ast.IncDecStmt:
-						if rootIdent(st.X) == "hm" {
-							stores = append(stores, exprText(st.X))
-						}
-					}
-					return true
-				})
-			}
-		}
-		sb.WriteString("\n/-- modules/caddyhttp/autohttps.go automaticHTTPSPhase1: the left-hand sides of the assignments that store\n    through the host matcher `hm` it walks (`hm, ok := m.(*MatchHost)` itself is a definition, not a store) -/\n")
+		stores := c18HostMatcherStores() // typed and call-following: c18phase1.go
+		sb.WriteString("\n/-- modules/caddyhttp: every store into a host matcher — an element of a MatchHost / *MatchHost value or the whole\n    slice behind a *MatchHost, identified by go/types — in code reachable from (*App).automaticHTTPSPhase1 (the function,\n    its function literals and, transitively, the functions / methods of the package it calls statically; MatchHost's own\n    methods excepted); `[\"LOAD-FAILED\"]` when the package does not type-check -/\n")
 		sb.WriteString("def autoHTTPSHostMatcherStores : List String := " + leanStrList(stores) + "\n")
 	}
 
@@ -2559,7 +2635,7 @@ func genGlue() string {
 	{
 		var rows []string
 		for _, rel := range []string{"modules/caddyhttp/autohttps.go", "modules/caddyhttp/matchers.go", "modules/caddyhttp/caddyauth/basicauth.go", "modules/caddyhttp/app.go"} {
-			_, f := parseFile(rel)
+			fset, f := parseFile(rel)
 			if f == nil {
 				continue
 			}
@@ -2582,7 +2658,8 @@ func genGlue() string {
 						if id, ok := se.X.(*ast.Ident); ok && (id.Name == "strings" || id.Name == "bytes") {
 							return true
 						}
-						rows = append(rows, "("+leanStr(filepath.Base(rel))+", "+leanStr(fd.Name.Name)+", "+leanStr(se.Sel.Name)+", "+leanStr(exprText(ce.Args[0]))+")")
+						fname, arg := c18CallRow(rel, fset, fd, ce)
+						rows = append(rows, "("+leanStr(filepath.Base(rel))+", "+leanStr(fname)+", "+leanStr(se.Sel.Name)+", "+leanStr(arg)+")")
 					}
 					return true
 				})
